@@ -423,6 +423,7 @@ package memefish
 // @   ensures[C13] eof: l.Token.Kind == "<eof>" ==> l.Token.Pos == len(l.Buffer) && l.Token.End == len(l.Buffer)
 // @   ensures[C13] nonempty: l.Token.Kind != "<eof>" && l.Token.Kind != "<bad>" ==> l.Token.Pos < l.Token.End
 // @   ensures[C03] badempty: l.Token.Kind == "<bad>" && l.Token.Pos == l.Token.End ==> l.Token.Pos == len(l.Buffer)
+// @   ensures[C13] rawlen: len(l.Token.Raw) == l.Token.End - l.Token.Pos
 // @   ensures[C13,C03] progress: l.Token.Kind != "<eof>" ==> l.pos > old(l.pos)
 // @   ensures l.lastTokenKind == old(l.Token.Kind)
 // @   ensures !noPanic ==> l.Token.Kind != "<bad>"
